@@ -1,5 +1,6 @@
 """Run Verus on an extracted unit, map diagnostics to named obligations."""
 import importlib.util
+import autoenv
 import json
 import os
 import re
@@ -87,6 +88,21 @@ def verify_unit(unit, lemma_items=(), want_canary=True):
     with open(path, "w") as f:
         f.write(text)
     rc, out, wall, to, diags, js, cmd = _run_verus(path)
+    # rule R30: getters the env does not offer are added as uninterpreted accessors (appended, so byte offsets keep their meaning)
+    auto_log = []
+    auto_text = ""
+    for _attempt in range(3):
+        missing = autoenv.missing_methods(diags)
+        if not missing:
+            break
+        extra, elog = autoenv.make(REPO, [mm for mm in missing if ("R30 auto accessor %s::%s" % mm) not in [e["item"] for e in auto_log]])
+        if not extra:
+            break
+        auto_log += elog
+        auto_text += extra
+        with open(path, "a") as f:
+            f.write(extra)
+        rc, out, wall, to, diags, js, cmd = _run_verus(path)
     times = _fn_times(js)
     errs = [d for d in diags if d.get("level") == "error" and not d["message"].startswith("aborting")]
     # classify ---------------------------------------------------------------
@@ -181,7 +197,7 @@ def verify_unit(unit, lemma_items=(), want_canary=True):
             "unit_file": path, "unit_sha": __import__("hashlib").sha256(text.encode()).hexdigest()[:16]}
     # vacuity canary -----------------------------------------------------------
     if want_canary and not tool_fail:
-        obs.append(_canary(unit, spec, b))
+        obs.append(_canary(unit, spec, b, auto_text))
     # assumption scan ------------------------------------------------------------
     scan = {k: len(re.findall(k, text)) for k in (r"\bassume\(", r"\badmit\(", r"external_body", r"assume_specification", r"\bexternal\b")}
     meta["assumption_scan"] = scan
@@ -190,10 +206,12 @@ def verify_unit(unit, lemma_items=(), want_canary=True):
         if n > declared.get(k, 0):
             obs.append(Ob("%s::assumption_scan" % unit, CANARY, FAILED, "scan",
                           detail="undeclared trusted construct %s: %d found, %d declared" % (k, n, declared.get(k, 0))))
-    return obs, cmd, b.log + [meta], path
+    if auto_log:
+        meta["R30_auto_accessors"] = [e["item"] for e in auto_log]
+    return obs, cmd, b.log + auto_log + [meta], path
 
 
-def _canary(unit, spec, b):
+def _canary(unit, spec, b, extra_text=""):
     """every function under contract, with `ensures false` added, must FAIL:
     shows its requires are satisfiable and the end of its body is reachable"""
     import copy
@@ -216,7 +234,7 @@ def _canary(unit, spec, b):
         return Ob("%s::canary" % unit, CANARY, FAILED, "verus/z3", detail=str(e))
     path = os.path.join(WORK, "verus", unit + "_canary.rs")
     with open(path, "w") as f:
-        f.write(b2.text())
+        f.write(b2.text() + extra_text)
     rc, out, wall, to, diags, js, cmd = _run_verus(path, rlimit=10)
     hit = set()
     for d in diags:
